@@ -259,6 +259,12 @@ class Session:
             "cer-otherrealm-vendorpad": lambda: node.cer(hbh, e2e, realm="realm.intruder", apps=apps, extra=FOREIGN_PAD[:1]),
             "cea-otherhost-vendorpad": lambda: node.cea(*self.last_request_ids(257), host="intruder.example", apps=apps, extra=FOREIGN_PAD),
             "cea-otherrealm-vendorpad": lambda: node.cea(*self.last_request_ids(257), realm="realm.intruder", apps=apps, extra=FOREIGN_PAD[:1]),
+            # the configured peer's CER with a foreign-vendor AVP numbered 264 in front (no part of its identity), and
+            # a CER lacking its Host-IP-Address but carrying a foreign-vendor AVP numbered 257
+            "cer-vendor264-first": lambda: node.cer(hbh, e2e, apps=apps, extra=[(264, 0x80, 99999, b"someone.else")]),
+            "cer-noip-vendor257": lambda: node.cer(hbh, e2e, apps=apps, drop=257, extra=[(257, 0x80, 99999, b"\x00\x01\x7f\x00\x00\x09")]),
+            # the configured peer refuses: a CEA with an error Result-Code
+            "cea-refusal": lambda: node.cea(*self.last_request_ids(257), result=5010, apps=apps),
             # two capabilities requests back to back (different identifiers) in one read
             "cer+cer": lambda: node.cer(hbh, e2e, apps=apps) + node.cer(e2e ^ 0x55, hbh ^ 0xaa, apps=apps),
             "cer+app": lambda: node.cer(hbh, e2e, apps=apps) + node.app_request(self.idseq, hbh=hbh ^ 1),
@@ -307,9 +313,9 @@ class Session:
             meta["requests"] = [(257, hbh, e2e), (257, e2e ^ 0x55, hbh ^ 0xaa)]
         elif what == "cer+app":
             meta["requests"] = [(257, hbh, e2e)]
-        elif what in ("cer", "dwr", "dpr", "dwr+app", "cer-2ip", "dpr-busy", "dpr-dontwant", "cer-vendor257", "dwr-tflag", "dpr-tflag", "cer-tflag"):
+        elif what in ("cer", "dwr", "dpr", "dwr+app", "cer-2ip", "dpr-busy", "dpr-dontwant", "cer-vendor257", "dwr-tflag", "dpr-tflag", "cer-tflag", "cer-vendor264-first"):
             meta["requests"] = [({"cer": 257, "dwr": 280, "dpr": 282, "dwr+app": 280, "cer-2ip": 257, "dpr-busy": 282,
-                                  "dpr-dontwant": 282, "cer-vendor257": 257, "dwr-tflag": 280, "dpr-tflag": 282, "cer-tflag": 257}[what], hbh, e2e)]
+                                  "dpr-dontwant": 282, "cer-vendor257": 257, "dwr-tflag": 280, "dpr-tflag": 282, "cer-tflag": 257, "cer-vendor264-first": 257}[what], hbh, e2e)]
         return data, meta
 
     def last_request_ids(self, code):
@@ -383,7 +389,7 @@ def judge(role, prev, o, history_ctx):
     # G4: Open only through R4 / R8
     if ns in OPENS and ps not in OPENS:
         ok = (role == "client" and ps == "Wait-I-CEA" and what in ("cea-echo", "cea-echo-2ip")) or \
-             (role == "server" and ps == "Closed" and what in ("cer", "cer-tflag", "cer+dwr", "cer+cer", "cer+app", "cer-2ip", "cer-vendor257"))
+             (role == "server" and ps == "Closed" and what in ("cer", "cer-tflag", "cer-vendor264-first", "cer+dwr", "cer+cer", "cer+app", "cer-2ip", "cer-vendor257"))
         if not ok:
             errs.append((sig(f"G4:opened-without-capabilities-exchange:{ps}:{kind if what is None else what}"),
                          f"G4: state became {ns} from {ps} on {ev}"))
@@ -413,7 +419,7 @@ def judge(role, prev, o, history_ctx):
                 # says when the connection may NOT open, so a stricter validator is not a violation
                 allow({"I-Open", "Wait-I-CEA", "Closed"} | ({"Closing"} if prev and prev.get("stop_req") else set()), "R4")
             elif what in ("cea-otherhost", "cea-otherhost-2ip", "cea-incomplete", "cea", "cea-badutf8", "cea-otherhost-vendorpad",
-                          "cea-otherrealm-vendorpad"):
+                          "cea-otherrealm-vendorpad", "cea-refusal"):
                 allow({"Wait-I-CEA", "Closed"}, "R5")
             elif what == "cer":
                 # RFC 6733 election (R-Conn-CER while awaiting the CEA): the unimplemented Wait-Returns state
@@ -430,7 +436,7 @@ def judge(role, prev, o, history_ctx):
             allow({"Closed", "Closing"}, "R16e")
     else:
         if ps == "Closed" and kind == "msg" and o["conn"] != "none":
-            if what in ("cer", "cer+dwr", "cer+cer", "cer+app", "cer-tflag"):
+            if what in ("cer", "cer+dwr", "cer+cer", "cer+app", "cer-tflag", "cer-vendor264-first"):
                 allow({"R-Open"}, "R8")
                 # what the peer pipelined behind its CER is handled once Open, after the CEA is out
                 if len(emitted(257, False)) < 1:
@@ -590,8 +596,8 @@ def run_history(role, apps, history, watchdog=30):
 
 MSGS_OPEN = ["dwr", "dwr-tflag", "dpr-tflag", "dwr-badutf8", "dwr-badutf8-realm", "cer-badutf8", "dpr-busy", "dpr-dontwant", "dwr-otherhost", "dwr-otherhost-2realm", "dwa", "dwa-otherhost", "dpr", "dpr-otherhost", "dpa", "cer", "cer-otherhost",
              "cea", "cea-echo", "dwa-echo", "app-req", "app-ans", "req-otherhost", "req-otherrealm", "dwr+dwr", "dwr+app"]
-MSGS_WAIT_CEA = ["cea-echo", "cea-echo-2ip", "cea-badutf8", "cea-otherhost", "cea-otherhost-2ip", "cea-otherhost-vendorpad", "cea-otherrealm-vendorpad", "cea-incomplete", "cer", "dwr", "dwa", "dpr", "dpa", "app-req", "app-ans"]
-MSGS_SERVER_CLOSED = ["cer", "cer-tflag", "cer+cer", "cer+app", "cer-2ip", "cer-badutf8", "cer-vendor257", "cer-otherhost", "cer-otherhost-2ip", "cer-otherhost-vendorpad", "cer-otherrealm-vendorpad", "cer-otherrealm", "cer-incomplete", "dwr", "app-req", "cea", "dpr"]
+MSGS_WAIT_CEA = ["cea-echo", "cea-refusal", "cea-echo-2ip", "cea-badutf8", "cea-otherhost", "cea-otherhost-2ip", "cea-otherhost-vendorpad", "cea-otherrealm-vendorpad", "cea-incomplete", "cer", "dwr", "dwa", "dpr", "dpa", "app-req", "app-ans"]
+MSGS_SERVER_CLOSED = ["cer", "cer-tflag", "cer-vendor264-first", "cer-noip-vendor257", "cer+cer", "cer+app", "cer-2ip", "cer-badutf8", "cer-vendor257", "cer-otherhost", "cer-otherhost-2ip", "cer-otherhost-vendorpad", "cer-otherrealm-vendorpad", "cer-otherrealm", "cer-incomplete", "dwr", "app-req", "cea", "dpr"]
 
 
 class FsmModel:
